@@ -12,12 +12,26 @@ pub mod c10;
 pub mod c18;
 
 // --- kit-wire (wirekit): C06, C16 ---------------------------------------------------------------
+#[cfg(feature = "kit-wire")]
+pub mod c06;
+#[cfg(feature = "kit-wire")]
+pub mod c16;
 // --- kit-wire2 (wirekit2): C13, C17, C19 --------------------------------------------------------
 #[cfg(feature = "kit-wire2")]
 pub mod c17;
 // --- kit-sim (simkit): C01-C05, C08, C09, C11, C12, C14, C15, C18(in-Sim), C20 ------------------
 #[cfg(feature = "kit-sim")]
+pub mod c03;
+#[cfg(feature = "kit-sim")]
+pub mod c14;
+#[cfg(feature = "kit-sim")]
+pub mod c01;
+#[cfg(feature = "kit-sim")]
+pub mod c02;
+#[cfg(feature = "kit-sim")]
 pub mod c05;
+#[cfg(feature = "kit-sim")]
+pub mod c09;
 #[cfg(feature = "kit-sim")]
 pub mod c11;
 #[cfg(feature = "kit-sim")]
@@ -50,12 +64,26 @@ pub fn dispatch(id: &str, a: &Action) -> i32 {
         #[cfg(feature = "kit-fs")]
         "C18" => act::<c18::C18>(a),
         // (kit-wire arms)
+        #[cfg(feature = "kit-wire")]
+        "C06" => act::<c06::C06>(a),
+        #[cfg(feature = "kit-wire")]
+        "C16" => act::<c16::C16>(a),
         // (kit-wire2 arms)
         #[cfg(feature = "kit-wire2")]
         "C17" => act::<c17::C17>(a),
         // (kit-sim arms)
         #[cfg(feature = "kit-sim")]
+        "C03" => act::<c03::C03>(a),
+        #[cfg(feature = "kit-sim")]
+        "C14" => act::<c14::C14>(a),
+        #[cfg(feature = "kit-sim")]
+        "C01" => act::<c01::C01>(a),
+        #[cfg(feature = "kit-sim")]
+        "C02" => act::<c02::C02>(a),
+        #[cfg(feature = "kit-sim")]
         "C05" => act::<c05::C05>(a),
+        #[cfg(feature = "kit-sim")]
+        "C09" => act::<c09::C09>(a),
         #[cfg(feature = "kit-sim")]
         "C11" => act::<c11::C11>(a),
         #[cfg(feature = "kit-sim")]
